@@ -2,7 +2,7 @@
    loop writing into the 10-byte array, in-place reversal of the written prefix, the prefix returned)
    is the model's pin_to_bytes, with the same fuel. *)
 From Coq Require Import List NArith Lia ZifyBool ZifyN ZifyNat.
-From WS Require Import lib.Bytes lib.Res lib.StepLoop Consts Steps model.Arr model.Pin.
+From WS Require Import lib.Bytes lib.Res lib.StepLoop Consts Steps spec.Pin model.Arr model.Pin proofs.Pin.
 Import ListNotations.
 Local Open Scope N_scope.
 
@@ -88,4 +88,15 @@ Proof.
   { rewrite app_length, skipn_length in E2. lia. }
   cbn [res_opt]. f_equal.
   rewrite firstn_app, Lp, Nat.sub_diag. cbn [firstn]. rewrite app_nil_r. apply firstn_all2. lia.
+Qed.
+
+(* property level, about the translated function: for every u32 PIN and a 10-byte array the result
+   is the decimal expansion, most significant digit first, and nothing panics *)
+Theorem pin_source_digits : forall pin out, pin < 2 ^ 32 -> length out = 10%nat ->
+  tr_pin_to_bytes 11 pin out = Some (digits pin).
+Proof.
+  intros pin out Hp Ho.
+  change 11%nat with (S 10). rewrite <- Ho.
+  rewrite pin_to_bytes_translated by (rewrite Ho; reflexivity).
+  rewrite pin_to_bytes_spec; [reflexivity|]. rewrite Ho. apply digits_length_u32. exact Hp.
 Qed.
